@@ -12,12 +12,12 @@ MCFund == {"L"}
 MCBase == IF NNodes = 3 THEN {"n1", "n2", "n3"} ELSE {"n1", "n2", "n3", "n4"}
 MCbdim == [b \in MCBase |-> [L |-> 1]]
 B(x) == [c \in MCBase |-> IF c = x THEN 1 ELSE 0]
-C(l, pv, p, r) == [l |-> l, pv |-> pv, p |-> p, r |-> B(r)]
-\* consistent by construction: n2 = 2 n1, n3 = 3 n2 = 6 n1, n4 = 5 n3 = 0.03 kilo-n1
+C(l, pv, p, r) == [l |-> l, lp |-> 0, pv |-> pv, p |-> p, r |-> B(r)]
+\* consistent by construction: n2 = 2 n1, n3 = 3 n2 = 6 n1, n4 = 5 n3, and 1 milli-n4 = 0.03 n1 (prefixed LEFT side)
 MCCands == IF NNodes = 3
            THEN << C("n2", <<1, 0, 0>>, 0, "n1"), C("n3", <<0, 1, 0>>, 0, "n2"), C("n3", <<1, 1, 0>>, 0, "n1") >>
            ELSE << C("n2", <<1, 0, 0>>, 0, "n1"), C("n3", <<0, 1, 0>>, 0, "n2"), C("n3", <<1, 1, 0>>, 0, "n1"),
-                   C("n4", <<0, 0, 1>>, 0, "n3"), C("n4", <<-2, 1, -2>>, 3, "n1") >>
+                   C("n4", <<0, 0, 1>>, 0, "n3"), [l |-> "n4", lp |-> -3, pv |-> <<-2, 1, -2>>, p |-> 0, r |-> B("n1")] >>
 MCRoots == {"n1"}
 
 NQ == Cardinality({k \in 1..Len(hist) : hist[k].op # "declare"})
